@@ -281,6 +281,12 @@ func c14Case(env *Env, tape *sim.Tape) *CaseOut {
 		op.ContentType = mt
 		op.Method = []string{"", "GET", "HEAD", "POST"}[kwRaw/5%4]
 		op.EarlyHints = kwRaw/3%8 == 7
+		if kwRaw/13%4 == 3 {
+			// the request is already cancelled (a timeout in front of the middleware): a
+			// failure to deliver the response is still reported
+			op.CtxCancelled = true
+			out.stat("probe_request_context_cancelled", 1)
+		}
 	case EReader:
 		n := tape.Draw(4)
 		for i := 0; i < n; i++ {
